@@ -221,6 +221,11 @@ func (p C11) Run(c *sim.Ctx, t *sim.Tape) sim.RunResult {
 			}
 		}
 
+		if o.K == "Rename" && a.toTwin(o.P) == a.toTwin(o.Q) {
+			// os.Rename compares its two arguments as strings before anything else: the twin gets other strings.
+			o = fsx.Op{K: "Stat", P: o.P}
+		}
+
 		// a view does not look at the directories above its own (like a chroot), the prefixed path does:
 		// the permissions of the proper ancestors of a view's directory are left alone.
 		if o.K == "Chmod" {
@@ -336,6 +341,13 @@ func (p C11) Run(c *sim.Ctx, t *sim.Tape) sim.RunResult {
 				// the directory of the view itself: it is the root of the view (empty name), a named directory for the twin.
 				if statRest(got.Data) != statRest(want.Data) {
 					return fail(i, a.name, o, "outcome-differs", o.K+" of the view's own directory differs from the twin",
+						fmt.Sprintf("client %q, twin %s %q", got, top, want))
+				}
+			} else if (o.K == "Stat" || o.K == "Lstat") && got.Err == "ok" && want.Err == "ok" && cleanAbs(o.P) != o.P {
+				// the reported name is the last element of the string given: for an unclean or relative path the
+				// twin's prefixed clean path gives another string; the attributes must agree.
+				if statRest(got.Data) != statRest(want.Data) {
+					return fail(i, a.name, o, "outcome-differs", o.K+" through a view differs from the prefixed call on the twin",
 						fmt.Sprintf("client %q, twin %s %q", got, top, want))
 				}
 			} else if got.String() != want.String() {
